@@ -64,7 +64,7 @@ fn ctl_pairing_revoke() {
     let changed = s.revoke("p1");
     let (g1, g2, g3) = (s.validate_with_role("AAA"), s.validate_with_role("BBB"), s.validate_with_role("CCC"));
     kani::cover!(changed && e1 >= now && e2 >= now);
-    assert!(g1.is_none() && g2.is_none(), "after pair.revoke {id} no credential with that id maps to a role");
+    assert!(g1.is_none() && g2.is_none(), "after pair.revoke of an id no credential with that id maps to a role");
     assert!(g3 == if e3 >= now { Some(AccessRole::Viewer) } else { None }, "other tokens are unaffected");
     assert!(changed == (e1 >= now || e2 >= now), "revoke reports whether a token was disabled");
     std::mem::forget(s);
